@@ -519,6 +519,7 @@ func RunClient(t *testing.T, sc CScenario) (h *CHistory) {
 		}
 		w.peer = peerEnd
 		cc = Wrap("cli", &onceCloser{Channel: cliEnd}, sc.Cfg.Yield, sc.Cfg.Faults)
+		cc.ReuseRecv = sc.Cfg.Chan == "reuse" // a direct channel whose Recv hands out one buffer again and again
 		cc.LogSends = true
 		cc.onEvent = func(kind string, data []byte, err error) {
 			w.log(CEvent{Kind: kind, Data: string(data), Err: errStr(err)})
